@@ -69,12 +69,13 @@ type vpC15Scenario struct {
 	WithCtx         bool
 	GateFirst       bool // Release==1 gates are opened before (else after) the Shutdown goroutine is started
 	Pad             int
+	PriorCycles     int // complete Serve / request / Shutdown cycles the same Server value went through before this scenario
 }
 
 func (sc vpC15Scenario) String() string {
 	var b strings.Builder
-	fmt.Fprintf(&b, "ln=%v cos=%v rmu=%v idle=%v read=%v ctx=%v gatefirst=%v pad=%d", sc.LnKinds, sc.CloseOnShutdown, sc.ReduceMem,
-		sc.IdleTimeout, sc.ReadTimeout, sc.WithCtx, sc.GateFirst, sc.Pad)
+	fmt.Fprintf(&b, "ln=%v cos=%v rmu=%v idle=%v read=%v ctx=%v gatefirst=%v pad=%d prior=%d", sc.LnKinds, sc.CloseOnShutdown, sc.ReduceMem,
+		sc.IdleTimeout, sc.ReadTimeout, sc.WithCtx, sc.GateFirst, sc.Pad, sc.PriorCycles)
 	for j, c := range sc.Conns {
 		fmt.Fprintf(&b, " | c%d ln%d %s pre=%d pretmo=%v", j, c.Ln, c.Phase, c.Pre, c.PreTmo)
 		switch c.Phase {
@@ -108,6 +109,7 @@ func vpC15Gen(t *rapid.T) vpC15Scenario {
 	sc.WithCtx = rapid.Bool().Draw(t, "withCtx")
 	sc.GateFirst = rapid.Bool().Draw(t, "gateFirst")
 	sc.Pad = rapid.SampledFrom([]int{0, 0, 10, 600, 5000}).Draw(t, "pad")
+	sc.PriorCycles = rapid.SampledFrom([]int{0, 0, 0, 1, 1, 2}).Draw(t, "priorCycles")
 	pipeKnown := vpKnownOpen(vpC15KeyPipe)
 	n := rapid.IntRange(1, 6).Draw(t, "conns")
 	fresh := false
@@ -391,6 +393,46 @@ func (r *vpC15Run) cleanup(shutRet chan error, serveDone []chan error) {
 	}
 }
 
+// vpC15PriorCycle takes s through one complete cycle: Serve on a fresh in-memory listener, one
+// answered request (the connection is then idle), Shutdown, Serve returned.
+func vpC15PriorCycle(s *Server, c int) string {
+	pn, err := vpC15NewNet([]string{"inmem"})
+	if err != nil {
+		return "listen: " + err.Error()
+	}
+	defer pn.closeAll()
+	sd := make(chan error, 1)
+	go func() { sd <- s.Serve(pn.lns[0]) }()
+	if !vpC15WaitRegistered(s, 1) {
+		return "Serve did not register its listener"
+	}
+	cl, err := pn.dial(0)
+	if err != nil {
+		return "dial: " + err.Error()
+	}
+	defer cl.shut()
+	cl.send(vpC15ReqBytes(vpC15Req{fmt.Sprintf("w%d", c), "fast"}))
+	if !cl.wait(vpC15SetupMax, func(out []byte, _ bool) bool { return vpC15Complete(out) >= 1 }) {
+		return "no response to the warm-up request"
+	}
+	ret := make(chan error, 1)
+	go func() { ret <- s.Shutdown() }()
+	select {
+	case err := <-ret:
+		if err != nil {
+			return "shutdown: returned " + err.Error()
+		}
+	case <-time.After(vpC15Watchdog):
+		return "shutdown: Shutdown with one idle connection did not return"
+	}
+	select {
+	case <-sd:
+	case <-time.After(vpC15Slack):
+		return "shutdown: Serve did not return after Shutdown returned nil"
+	}
+	return ""
+}
+
 func vpC15RunScenario(t *rapid.T, sc vpC15Scenario) {
 	r := &vpC15Run{sc: sc, log: vpC15NewLog(), gates: map[string]chan struct{}{}, gateOnce: map[string]*sync.Once{},
 		fallback: make(chan struct{})}
@@ -451,6 +493,15 @@ func vpC15RunScenario(t *rapid.T, sc vpC15Scenario) {
 		ReadTimeout:       sc.ReadTimeout,
 	}
 	r.s = s
+	// a Server value may be served again after Shutdown returned: the scenario below must hold on a
+	// restarted server exactly as on a new one
+	for c := 0; c < sc.PriorCycles; c++ {
+		if msg := vpC15PriorCycle(s, c); strings.HasPrefix(msg, "shutdown:") {
+			t.Fatalf("Serve/Shutdown cycle %d on the same Server (one idle keep-alive connection): %s\nscenario: %s", c, msg, sc)
+		} else if msg != "" {
+			t.Fatalf("VP-INCONCLUSIVE: prior Serve/Shutdown cycle %d: %s\nscenario: %s", c, msg, sc)
+		}
+	}
 	nl := len(sc.LnKinds)
 	serveDone := make([]chan error, nl)
 	nw, err := vpC15NewNet(sc.LnKinds)
